@@ -107,23 +107,26 @@ def _precon_contract():
 # ---- transition() of the three Wiener priors, built by the real constructors inside the trace ----
 
 
-def _build_prior(L, q, d, base):
+def _build_prior(L, q, d, base, explicit_std=False):
     import probdiffeq.probdiffeq as pd
 
     ssm = {DenseL: pd.state_space_model_dense, IsoL: pd.state_space_model_isotropic, BlockL: pd.state_space_model_blockdiag}[L]()
     tcoeffs = [jnp.zeros((d,)) + 0.1 * i for i in range(q + 1)]
+    if explicit_std:  # the constructor that takes the initial standard deviations explicitly
+        stds = [(jnp.ones(()) if L is IsoL else jnp.ones((d,))) * 0.3 for _ in tcoeffs]
+        return ssm.prior_wiener_integrated_diffuse(tcoeffs, stds, output_scale=base)
     if L is IsoL:
         return ssm.prior_wiener_integrated(tcoeffs, output_scale=base)
     return ssm.prior_wiener_integrated(tcoeffs, output_scale=base)
 
 
-def transition_contract(L):
+def transition_contract(L, explicit_std=False):
     mod = L.module
     cls = {DenseL: "DenseWienerIntegrated", IsoL: "IsotropicWienerIntegrated", BlockL: "BlockDiagWienerIntegrated"}[L]
 
     def wrap(target):
         def f(h, sigma, base, *, q, d):
-            prior = _build_prior(L, q, d, base)
+            prior = _build_prior(L, q, d, base, explicit_std)
             return target(prior, dt=h, output_scale=sigma)
 
         return f
@@ -146,6 +149,8 @@ def transition_contract(L):
     def instances(tier):
         out = []
         fam = [(0, 1), (1, 1), (1, 2), (2, 2), (3, 1)] if tier == "quick" else [(q, d) for q in range(0, 11) for d in ((1, 2) if q <= 4 else (1,))]
+        if explicit_std:
+            fam = [(1, 2)] if tier == "quick" else [(1, 2), (2, 1)]
         for q, d in fam:
             def make(rng, q=q, d=d):
                 sigma = jnp.asarray(rng.uniform(0.5, 2.0, size=(d,) if L is BlockL else ()))
@@ -154,7 +159,7 @@ def transition_contract(L):
             out.append(Instance(f"q={q},d={d}", make, positive=lambda a, k: [a[0], a[1], a[2]], names=lambda a, k: {id(a[0]): "h", id(a[1]): "sigma", id(a[2]): "base"}))
         return out
 
-    return Contract(name=f"{mod}:{cls}.transition", module=mod, qualname=f"{cls}.transition", wrap=wrap, ensures=ensures, instances=instances,
+    return Contract(name=f"{mod}:{cls}.transition" + ("[explicit_std]" if explicit_std else ""), module=mod, qualname=f"{cls}.transition", wrap=wrap, ensures=ensures, instances=instances,
                     doc="after removing the preconditioner: (exp(hN) (x) I, 0, sigma^2 base^2 (x) int exp(sN) e e^T exp(sN)^T ds), prior built by the real constructor")
 
 
@@ -199,7 +204,7 @@ def composition_contract(L):
 def contracts():
     out = [_hilbert_contract(), _system_contract(), _precon_contract()]
     for L in G.LAYOUTS:
-        out += [transition_contract(L), composition_contract(L)]
+        out += [transition_contract(L), transition_contract(L, explicit_std=True), composition_contract(L)]
     return out
 
 
@@ -225,6 +230,24 @@ def prior_init_contract(L, mode, ctor="wiener"):
         def f(tcoeffs, eps, deps, *, n, d, k):
             ssm = target()
             kw = dict(inexact_eps=eps, diffuse_derivatives=k, diffuse_eps=deps)
+            if mode == "explicit":
+                # the constructors that take the standard deviations explicitly: std of coefficient i is (i+1) eps
+                stds = [(jnp.ones(()) if L is IsoL else jnp.ones((d,))) * eps * (i + 1.0) for i in range(n)]
+                kw = dict(diffuse_derivatives=k, diffuse_eps=deps)
+                if ctor == "wiener":
+                    prior = ssm.prior_wiener_integrated_diffuse(list(tcoeffs), stds, **kw)
+                elif ctor == "ou":
+                    W = jnp.asarray(np.random.default_rng(3).normal(size=(d, d)))
+                    prior = ssm.prior_ornstein_uhlenbeck_integrated_diffuse(lambda u: W @ u, list(tcoeffs), stds, **kw)
+                elif ctor == "matern":
+                    prior = ssm.prior_matern_diffuse(0.7, list(tcoeffs), stds, **kw)
+                else:
+                    import probdiffeq.probdiffeq as pd
+
+                    W = jnp.asarray(np.random.default_rng(4).normal(size=(n + k, d, d)))
+                    ode = pd.ode_autonomous_order_arbitrary(lambda *us: sum(W[i] @ u for i, u in enumerate(us)), num_tcoeffs_in_args=n + k)
+                    prior = ssm.prior_exponential_diffuse(ode, list(tcoeffs), stds, **kw)
+                return prior.init.mean_flat, cov(L, prior.init), prior.output_scale
             if mode == "exact":
                 kw["is_exact"] = True
             elif mode in ("inexact", "diffuse"):
@@ -264,6 +287,8 @@ def prior_init_contract(L, mode, ctor="wiener"):
         for i in range(N):
             if i >= n:
                 v = jnp.ones((d,)) * deps * deps
+            elif mode == "explicit":
+                v = jnp.ones((d,)) * (eps * (i + 1.0)) ** 2
             elif mode == "exact":
                 v = jnp.zeros((d,))
             elif mode in ("inexact", "diffuse"):
@@ -286,7 +311,7 @@ def prior_init_contract(L, mode, ctor="wiener"):
 
     def instances(tier):
         out = []
-        fam = [(2, 2, 1 if mode == "diffuse" else 0)] + ([(1, 2, 2 if mode == "diffuse" else 0), (3, 1, 1 if mode == "diffuse" else 0)] if tier == "thorough" else [])
+        fam = [(2, 2, 1 if mode in ("diffuse", "explicit") else 0)] + ([(1, 2, 2 if mode == "diffuse" else 0), (3, 1, 1 if mode == "diffuse" else 0)] if tier == "thorough" else [])
         for n, d, k in fam:
             def make(rng, n=n, d=d, k=k):
                 return (tuple(jnp.asarray(rng.normal(size=(d,))) for _ in range(n)), jnp.asarray(rng.uniform(0.01, 0.1)), jnp.asarray(rng.uniform(1.0, 3.0))), {"n": n, "d": d, "k": k}
@@ -301,5 +326,6 @@ def prior_init_contract(L, mode, ctor="wiener"):
 def init_contracts():
     out = [prior_init_contract(L, mode) for L in (DenseL, IsoL, BlockL) for mode in ("exact", "inexact", "flags", "diffuse")]
     # the exponential priors (dense model) take the same initial-condition options
-    out += [prior_init_contract(DenseL, mode, ctor) for ctor in ("general", "ou", "matern") for mode in ("inexact", "flags", "diffuse")]
+    out += [prior_init_contract(DenseL, mode, ctor) for ctor in ("general", "ou", "matern") for mode in ("inexact", "flags", "diffuse", "explicit")]
+    out += [prior_init_contract(L, "explicit") for L in (DenseL, IsoL, BlockL)]
     return out
